@@ -172,8 +172,50 @@ class KernelTranslator:
             if name in CAST_CALLS and len(n.args) == 1:
                 self.casts.append(ast.unparse(n))
                 return self.expr(n.args[0])
+            inl = self.inline_pure_helper(n)
+            if inl is not None:
+                return self.expr(inl)
             raise Untranslatable(f"call {ast.unparse(n)}")
         raise Untranslatable(f"expression {ast.unparse(n)}")
+
+    def inline_pure_helper(self, call):
+        """`f(a, b, ..)` where `f` is a function of the same module whose body is straight-line: assignments of
+        expressions to fresh names followed by one `return <expr>` -- replaced by that expression with the
+        arguments substituted (the same value: no control flow, no side effect; numba inlines such helpers too).
+        Anything else: None."""
+        if not isinstance(call.func, ast.Name) or call.keywords:
+            return None
+        f = next((st for st in self.mod.body if isinstance(st, ast.FunctionDef) and st.name == call.func.id), None)
+        if f is None or f.args.vararg or f.args.kwarg or f.args.kwonlyargs or f.args.defaults:
+            return None
+        params = [a.arg for a in f.args.args]
+        if len(params) != len(call.args):
+            return None
+        body = [st for st in f.body if not (isinstance(st, ast.Expr) and isinstance(st.value, ast.Constant))]
+        if not body or not isinstance(body[-1], ast.Return) or body[-1].value is None:
+            return None
+        env = dict(zip(params, call.args))
+
+        class Sub(ast.NodeTransformer):
+            def visit_Name(self_, node):
+                if isinstance(node.ctx, ast.Load) and node.id in env:
+                    return copy.deepcopy(env[node.id])
+                return node
+        import copy
+        for st in body[:-1]:
+            if not (isinstance(st, ast.Assign) and len(st.targets) == 1 and isinstance(st.targets[0], ast.Name)):
+                return None
+            if any(isinstance(x, (ast.Call,)) and isinstance(x.func, ast.Name) and x.func.id == f.name for x in ast.walk(st.value)):
+                return None          # recursion
+            env[st.targets[0].id] = Sub().visit(copy.deepcopy(st.value))
+        depth = getattr(self, "_inline_depth", 0)
+        if depth > 3:
+            return None
+        self._inline_depth = depth + 1
+        try:
+            return Sub().visit(copy.deepcopy(body[-1].value))
+        finally:
+            self._inline_depth = depth
 
     def cond(self, n):
         if isinstance(n, ast.Constant) and isinstance(n.value, bool):
